@@ -19,7 +19,7 @@ from .c03 import view, rview, GAPS, FIRSTS
 
 ZONES = ["UTC", "Asia/Kolkata", "Asia/Kathmandu", "Australia/Adelaide", "Australia/Lord_Howe", "Pacific/Chatham",
          "America/St_Johns", "America/New_York", "Europe/London", "Pacific/Kiritimati", "Etc/GMT+12"]
-TFS = ["S30", "T1", "T5", "T7", "T45", "H1", "H4", "H5", "D1", "D2", "D7"]
+TFS = ["S30", "T1", "T5", "T7", "T10", "T20", "T30", "T45", "H1", "H4", "H5", "D1", "D2", "D7"]
 BASES = ["2024-01-15T00:00:00", "2024-03-10T01:30:00", "2024-11-03T00:30:00", "2024-03-31T00:30:00",
          "2024-10-27T00:30:00", "2024-04-07T01:15:00", "2024-10-06T01:30:00", "2024-09-29T02:15:00"]
 WORD = "UDJLHFVZ"
@@ -42,8 +42,10 @@ def cases(tier):
                     for gaps in A.words(GAPS, n - 1):
                         ts = A.timestamps(first, gaps, tfsec, b)
                         raw = [A.shape(WORD[i % 8], {"tick": 1.0, "offset": 0}) + (t.isoformat(),) for i, t in enumerate(ts)]
-                        for host in ("cm", "ind"):
-                            for supply in ("ctor", "append1"):
+                        for host in ("cm", "ind", "cm+fill"):
+                            for supply in ("ctor", "append1", "appendall"):
+                                if host == "ind" and supply == "appendall":
+                                    continue
                                 yield (tf, base, first, gaps, host, supply), raw
 
 
@@ -53,12 +55,15 @@ def execute(raw, tf, host, supply):
     from ..drivers import fresh
 
     k = len(raw) if supply == "ctor" else 0
-    if host == "cm":
-        obj = CandleManager(fresh(raw[:k]), timeframe=tf)
+    if host.startswith("cm"):
+        obj = CandleManager(fresh(raw[:k]), timeframe=tf, timeframe_fill=host.endswith("+fill"))
     else:
         obj = SMA(period=2, candles=fresh(raw[:k]), timeframe=tf)
-    for i in range(k, len(raw)):
-        obj.append(fresh(raw[i:i + 1]))
+    if supply == "appendall":
+        obj.append(fresh(raw))
+    else:
+        for i in range(k, len(raw)):
+            obj.append(fresh(raw[i:i + 1]))
     return view(obj.candles)
 
 
@@ -79,7 +84,10 @@ def child(tier):
             got = None
         out.append(d)
         if zone == "UTC" and got is not None:
-            if got != rview(R.collapse(raw, A.tf_seconds(key[0]))):
+            ref = R.collapse(raw, A.tf_seconds(key[0]))
+            if key[4].endswith("+fill"):
+                ref = R.fill(ref, A.tf_seconds(key[0]))
+            if got != rview(ref):
                 refbad.append(idx)
     # sanity: the zone really took effect in this process
     off = datetime(2024, 1, 15, 12).astimezone().utcoffset().total_seconds()
@@ -116,7 +124,10 @@ def replay(case):
     key = tuple(case["key"])
     a = one_case("UTC", key, raw)
     b = one_case(case["zone"], key, raw)
-    ref = json.loads(json.dumps(rview(R.collapse(raw, A.tf_seconds(key[0])))))
+    ref = R.collapse(raw, A.tf_seconds(key[0]))
+    if key[4].endswith("+fill"):
+        ref = R.fill(ref, A.tf_seconds(key[0]))
+    ref = json.loads(json.dumps(rview(ref)))
     return a != b or a != ref
 
 
